@@ -324,14 +324,25 @@ func runC15(c *Ctx) {
 					return s.GetMem(g.Address(a))
 				}
 				may := map[int]map[g.CoreState]bool{}
+				lastPhase := map[int]uint8{} // per cell: the last phase of the task that touched it
+				lastKinds := map[int]map[g.CoreState]bool{}
+				curPhase := uint8(0)
 				add := func(a int, st g.CoreState) {
 					if may[a] == nil {
 						may[a] = map[g.CoreState]bool{}
 					}
 					may[a][st] = true
+					if curPhase > lastPhase[a] || lastKinds[a] == nil {
+						lastPhase[a] = curPhase
+						lastKinds[a] = map[g.CoreState]bool{}
+					}
+					if curPhase == lastPhase[a] {
+						lastKinds[a][st] = true
+					}
 				}
 				sideEffectElsewhere := false
 				for _, e := range tr.Info.Events {
+					curPhase = e.Phase
 					switch e.Kind {
 					case mars.EvDec:
 						add(e.Addr, g.CoreDecremented)
@@ -387,14 +398,21 @@ func runC15(c *Ctx) {
 					}
 					touchedRef[a][st] = true
 				}
-				addT(tr.PC, g.CoreExecuted)
-				for a, ks := range may {
+				// the recorder must show the kind of the LAST operation on a cell: the side effects of operand
+				// evaluation (A before B) precede the opcode's own write / decrement / death; within the
+				// execution phase the order of "write" and "task terminated" is not prescribed
+				for a, ks := range lastKinds {
 					for st := range ks {
 						addT(a, st)
 					}
 				}
 				if tr.Info.Died {
+					if lastPhase[tr.PC] < 3 {
+						touchedRef[tr.PC] = map[g.CoreState]bool{}
+					}
 					addT(tr.PC, g.CoreTerminated)
+				} else if touchedRef[tr.PC] == nil {
+					addT(tr.PC, g.CoreExecuted)
 				}
 				for a, ks := range touchedRef {
 					nc := refCell{owner: tr.Warrior, kinds: ks}
